@@ -304,7 +304,9 @@ func sequentialBFS(r *ev.Run, depth int) (states, transitions, traces int64) {
 						continue
 					}
 					if alive {
-						next = append(next, nh)
+						if d < depth { // the last level's histories are not extended: do not keep them (10 GB at depth 4)
+							next = append(next, nh)
+						}
 						lst++
 					}
 				}
